@@ -337,8 +337,10 @@ func (v Value) ToString() (string, bool) {
 
 func getName(defaultName string, meta *Table) string {
 	if v := RawGet(meta, StringValue("__name")); !v.IsNil() {
-		s, ok := v.ToString()
-		if ok {
+		// Only a string counts (as in the reference implementation).  Turning
+		// any value into a string here would look at that value's own __name
+		// in turn, without end if the metatables name one another.
+		if s, ok := v.TryString(); ok {
 			return s
 		}
 	}
